@@ -41,7 +41,7 @@ static inline SyncConnectOp *iora_make_sco(Impl *im)
   IORA_ASSERT(G_made == 0, "at most one allocation per call (harness supplies one object)");
   G_made++;
   SyncConnectOp *o = G_fresh_op;
-  o->cv.n_one = 0; o->cv.n_all = 0; o->done = false; o->result = iora_result_err(TransportError_Timeout); o->guard = &im->syncMutex;
+  o->cv.n_one = 0; o->cv.n_all = 0; o->done = false; o->abandoned = false; o->result = iora_result_err(TransportError_Timeout); o->guard = &im->syncMutex;
   return o;
 }
 
@@ -99,7 +99,9 @@ static inline void sc_snapshot(const Impl *im, const SyncConnectOp *op, sc_lin *
   IORA_ASSERT(G_unlocks == 0 && _impl->engine->sync_held_at_connect, "REG2 syncMutex is held continuously from engine->connect() until the wait begins"); \
   if (!(P)) { sc_env_step(_impl, o); LIN1.waited = 1; } \
   sc_snapshot(_impl, o, &LIN1)
-static inline void sc_ulock_unlock(iora_ulock *l) { iora_ulock_unlock(l); if (G_unlocks < 1000) G_unlocks++; }
+bool G_abandoned_at_unlock;   /* ghost: value of op->abandoned when connectSync released the lock for engine->close() */
+static inline void sc_ulock_unlock(iora_ulock *l)
+{ G_abandoned_at_unlock = G_fresh_op->abandoned; iora_ulock_unlock(l); if (G_unlocks < 1000) G_unlocks++; }
 static inline void sc_ulock_lock(iora_ulock *l)
 {
   /* other threads ran while the mutex was free */
